@@ -5,3 +5,4 @@ import NjectProofs.Machine
 import NjectProofs.EditProofs
 import NjectProofs.ConcProofs
 import NjectProofs.HelperProofs
+import NjectProofs.CondenseProofs
